@@ -79,7 +79,46 @@ MUTATIONS = [
              "        point_mask[np.unique(self.trilist[tri_mask].ravel())] = True\n",
              "        selected_rows = self.trilist[tri_mask]\n        used = np.unique(selected_rows.ravel())\n"
              "        point_mask[used] = True\n")]),
+    ("harmless: compute_vertex_normals accumulates corner by corner in a loop over range(3)",
+     "ok", [(NRM,
+             "    np.add.at(vertex_normals, trilist[:, 0], face_normals)\n    np.add.at(vertex_normals, trilist[:, 1], face_normals)\n"
+             "    np.add.at(vertex_normals, trilist[:, 2], face_normals)\n",
+             "    for corner in range(3):\n        np.add.at(vertex_normals, trilist[:, corner], face_normals)\n")]),
+    ("harmless: tri_areas as guard clauses with n_dims read once and the 3-D arm first",
+     "ok", [(BASE,
+             "        if self.n_dims == 2:\n            return np.abs((ij[:, 0] * ik[:, 1] - ij[:, 1] * ik[:, 0]) * 0.5)\n"
+             "        elif self.n_dims == 3:\n            return np.linalg.norm(np.cross(ij, ik), axis=1) * 0.5\n"
+             "        else:\n            raise ValueError(\"tri_areas can only be calculated on a 2D or \" \"3D mesh\")\n",
+             "        n_dims = self.n_dims\n        if n_dims == 3:\n            return np.linalg.norm(np.cross(ij, ik), axis=1) * 0.5\n"
+             "        if n_dims == 2:\n            return np.abs((ij[:, 0] * ik[:, 1] - ij[:, 1] * ik[:, 0]) * 0.5)\n"
+             "        raise ValueError(\"tri_areas can only be calculated on a 2D or 3D mesh\")\n")]),
+    ("harmless: helpers extracted (module-level _rows_hit in adjacency.py, methods _edge_keys / _corner_vectors of TriMesh)",
+     "ok", [(ADJ, "def mask_adjacency_array(mask, adjacency_array):",
+             "def _rows_hit(adjacency_array, removed):\n    hits = np.isin(adjacency_array.ravel(), removed)\n"
+             "    return hits.reshape([-1, adjacency_array.shape[1]])\n\n\ndef mask_adjacency_array(mask, adjacency_array):"),
+            (ADJ, "    entries_to_remove = np.isin(adjacency_array.ravel(), indices_to_remove)\n"
+                  "    entries_to_remove = entries_to_remove.reshape([-1, adjacency_array.shape[1]])\n",
+             "    entries_to_remove = _rows_hit(adjacency_array, indices_to_remove)\n"),
+            (BASE, "    def boundary_tri_index(self):",
+             "    def _edge_keys(self, edge_pairs):\n        return edge_pairs[:, 0] * self.n_points + edge_pairs[:, 1]\n\n"
+             "    def _corner_vectors(self):\n        t = self.points[self.trilist]\n"
+             "        return t[:, 1] - t[:, 0], t[:, 2] - t[:, 0]\n\n    def boundary_tri_index(self):"),
+            (BASE, "        edge_keys = edge_pairs[:, 0] * self.n_points + edge_pairs[:, 1]\n",
+             "        edge_keys = self._edge_keys(edge_pairs)\n"),
+            (BASE, "        t = self.points[self.trilist]\n        ij, ik = t[:, 1] - t[:, 0], t[:, 2] - t[:, 0]\n",
+             "        ij, ik = self._corner_vectors()\n")]),
     # ------------------------------------------------------------------------------------------------ changed decisions
+    ("changed: extracted helper _edge_keys multiplies by the number of triangles instead of the number of points", "violation",
+     [(BASE, "    def boundary_tri_index(self):",
+       "    def _edge_keys(self, edge_pairs):\n        return edge_pairs[:, 0] * self.n_tris + edge_pairs[:, 1]\n\n"
+       "    def boundary_tri_index(self):"),
+      (BASE, "        edge_keys = edge_pairs[:, 0] * self.n_points + edge_pairs[:, 1]\n",
+       "        edge_keys = self._edge_keys(edge_pairs)\n")]),
+    ("changed: compute_vertex_normals loops over range(2) only (third corner never accumulated)", "violation",
+     [(NRM,
+       "    np.add.at(vertex_normals, trilist[:, 0], face_normals)\n    np.add.at(vertex_normals, trilist[:, 1], face_normals)\n"
+       "    np.add.at(vertex_normals, trilist[:, 2], face_normals)\n",
+       "    for corner in range(2):\n        np.add.at(vertex_normals, trilist[:, corner], face_normals)\n")]),
     ("changed: ColouredTriMesh.from_mask slices the colours with the caller's mask", "violation",
      [(COL, "            ctm.colours = ctm.colours[isolated_mask, :]\n", "            ctm.colours = ctm.colours[mask, :]\n")]),
     ("changed: boundary_tri_index keys an edge by its low vertex twice (swapped argument)", "violation",
